@@ -32,8 +32,8 @@ RULE = ("case = (R, P, variant, rmin, pmin, block of failure subsets); non-trivi
 ASSUMPTIONS = ["NaN rules apply to every evaluator call of a run (same failure pattern at every point)"]
 EXHAUSTIVE = {"quick": True, "thorough": True}
 BOUNDS = {"quick": {"exhaustive_R_P": [3, 2]}, "thorough": {"exhaustive_R_P": [3, 3]}}
-REQUIRED = {"quick": {"flags_checked": 8000, "gate_absent_checked": 1500, "grad_entries_compared": 3000, "differential_compared": 300, "garbage_compared": 300, "exit_code_checked": 94, "history_calls_judged": 500, "__nontrivial__": 300},
-            "thorough": {"flags_checked": 400000, "gate_absent_checked": 80000, "grad_entries_compared": 100000, "differential_compared": 8000, "garbage_compared": 8000, "exit_code_checked": 1906, "history_calls_judged": 12000, "__nontrivial__": 3000}}
+REQUIRED = {"quick": {"flags_checked": 8000, "gate_absent_checked": 1500, "grad_entries_compared": 3000, "differential_compared": 300, "garbage_compared": 300, "exit_code_checked": 94, "history_calls_judged": 500, "infinite_value_cases_judged": 90, "rows_with_both_infinities": 100, "__nontrivial__": 300},
+            "thorough": {"flags_checked": 400000, "gate_absent_checked": 80000, "grad_entries_compared": 100000, "differential_compared": 8000, "garbage_compared": 8000, "exit_code_checked": 1906, "history_calls_judged": 12000, "infinite_value_cases_judged": 1800, "rows_with_both_infinities": 2000, "__nontrivial__": 3000}}
 
 VARIANTS = ["mean", "stddev", "mixed_con", "filter_cvar", "filter_sort", "merged"]
 
@@ -78,6 +78,8 @@ def cases(tier, seed):
         yield {"mode": "sampled", "i": i}
     for i in range(200 if tier == "quick" else 4000):
         yield {"mode": "exit", "i": i}
+    for i in range(150 if tier == "quick" else 3000):
+        yield {"mode": "inf", "i": i}
 
 
 def _rules(R, P, subset_bits, F, rot):
@@ -352,9 +354,88 @@ def _exit_case(case, obs):
         obs.check(code != OptimizerExitCode.TOO_FEW_REALIZATIONS, "exit_code_too_few_but_enough", code=int(code), failed_f=failed_f, failed_g=failed_g, rmin=int(rmin))
 
 
+def _inf_case(case, obs):
+    """Only NaN marks a failure: rows holding infinities (also +inf and -inf next to each other) are successful rows.
+    Judged: the reported failure flags of the function and of the gradient result (values are not - they overflow)."""
+    from ropt.ensemble_evaluator import EnsembleEvaluator  # noqa: PLC0415
+    from ropt.exceptions import OptimizationAborted  # noqa: PLC0415
+
+    rng = rng_for(obs.seed, "c03inf", case["i"])
+    R, P = int(rng.integers(1, 5)), int(rng.integers(1, 4))
+    n_obj, n_con = int(rng.integers(1, 4)), int(rng.integers(0, 4))
+    F = n_obj + n_con
+    spec = {"V": 2, "R": R, "P": P, "rweights": [1.0] * R, "oweights": [1.0] * n_obj, "n_con": n_con, "x0": [0.3, -0.2], "magnitudes": [0.01], "seed": 7,
+            "samplers": [{"method": "norm"}], "ensemble": {"kind": "affine", "a": rng.normal(size=(R, F, 2)).tolist(), "b": rng.normal(size=(R, F)).tolist()},
+            "rmin": 0, "pmin": int(rng.integers(1, P + 1)), "nan": []}
+    if n_con:
+        spec["con_lb"], spec["con_ub"] = [-np.inf] * n_con, [0.5] * n_con
+    case["spec"] = spec
+    cfg = ens.make_config(spec)
+    ev = ens.RecordingEvaluator(spec)
+    marks = {}
+
+    def evaluator(variables, context):
+        res = ev(variables, context)
+        allv = [res.objectives] + ([res.constraints] if res.constraints is not None else [])
+        n = res.objectives.shape[0]
+        kinds = rng.choice(["finite", "nan", "inf", "inf_both"], size=n, p=[0.4, 0.2, 0.2, 0.2])
+        for i, kd in enumerate(kinds):
+            grp = allv[int(rng.integers(len(allv)))]
+            if kd == "nan":
+                grp[i, int(rng.integers(grp.shape[1]))] = np.nan
+            elif kd == "inf":
+                grp[i, int(rng.integers(grp.shape[1]))] = rng.choice([np.inf, -np.inf])
+            elif kd == "inf_both":
+                big = [g for g in allv if g.shape[1] >= 2]
+                if big:
+                    g = big[int(rng.integers(len(big)))]
+                    c = rng.choice(g.shape[1], size=2, replace=False)
+                    g[i, c[0]], g[i, c[1]] = np.inf, -np.inf
+                    obs.count("rows_with_both_infinities")
+                else:
+                    kinds[i] = "finite"
+        marks[len(ev.calls) - 1] = kinds
+        return res
+
+    import warnings  # noqa: PLC0415
+
+    ee = EnsembleEvaluator(cfg, None, evaluator, ens.plugin_manager())
+    try:
+        with warnings.catch_warnings():
+            warnings.simplefilter("ignore")
+            fres, gres = ee.calculate(np.array(spec["x0"]), compute_functions=True, compute_gradients=True)
+    except OptimizationAborted:
+        obs.count("aborted_by_filter_or_estimator")
+        return
+    c = ev.calls[0]
+    kinds = marks[0]
+    perts = c.perturbations
+    failed_f = np.zeros(R, dtype=bool)
+    psucc = np.ones((R, P), dtype=bool)
+    for i, kd in enumerate(kinds):
+        r, p = int(c.realizations[i]), int(perts[i])
+        if kd == "nan":
+            if p < 0:
+                failed_f[r] = True
+            else:
+                psucc[r, p] = False
+    failed_g = failed_f | (psucc.sum(axis=1) < cfg.gradient.perturbation_min_success)
+    obs.count("infinite_value_cases_judged")
+    obs.nontrivial("inf", case["i"])
+    if not np.array_equal(np.asarray(fres.realizations.failed_realizations), failed_f):
+        obs.violation("failed_flags_with_infinite_values", reported=fres.realizations.failed_realizations, expected=failed_f, rows=[str(k) for k in kinds],
+                      realizations=c.realizations, perturbations=perts)
+        return
+    if not np.array_equal(np.asarray(gres.realizations.failed_realizations), failed_g):
+        obs.violation("failed_flags_gradient_with_infinite_values", reported=gres.realizations.failed_realizations, expected=failed_g, rows=[str(k) for k in kinds],
+                      realizations=c.realizations, perturbations=perts, pmin=int(cfg.gradient.perturbation_min_success))
+
+
 def run_case(case, obs):
     if case["mode"] == "exit":
         return _exit_case(case, obs)
+    if case["mode"] == "inf":
+        return _inf_case(case, obs)
     pm = ens.plugin_manager()
     if case["mode"] == "sampled":
         rng = rng_for(obs.seed, "c03s", case["i"])
